@@ -26,7 +26,7 @@ def sh(cmd, timeout=1800, env=None):
 
 def confirm(raw_dir, tag, prop, letter):
     src = os.path.join(ROOT, raw_dir, prop, letter)
-    rnd = 'r3' if raw_dir.endswith('3') else ('r2' if raw_dir.endswith('2') else 'r1')
+    rnd = 'r' + (raw_dir[len('seeded_raw'):] or '1')
     sid = '%s-%s%s' % (prop, rnd, letter)
     out = dict(id=sid, property=prop, source=os.path.relpath(src, ROOT))
     meta = json.load(open(os.path.join(src, 'meta.json')))
@@ -87,13 +87,14 @@ def confirm(raw_dir, tag, prop, letter):
 def main():
     want = set(sys.argv[1:])
     items = []
-    for raw in ('seeded_raw', 'seeded_raw2', 'seeded_raw3'):
+    for raw in ('seeded_raw', 'seeded_raw2', 'seeded_raw3', 'seeded_raw4'):
         d = os.path.join(ROOT, raw)
         if not os.path.isdir(d):
             continue
         for prop in sorted(os.listdir(d)):
             for letter in sorted(os.listdir(os.path.join(d, prop))):
-                key = ('r3:' if raw.endswith('3') else 'r2:' if raw.endswith('2') else '') + '%s/%s' % (prop, letter)
+                n = raw[len('seeded_raw'):]
+                key = (('r%s:' % n) if n else '') + '%s/%s' % (prop, letter)
                 if want and key not in want:
                     continue
                 if os.path.exists(os.path.join(d, prop, letter, 'patch.diff')):
